@@ -5,7 +5,7 @@ import framework as F
 META = {
     "id": "C22", "category": "proof", "design_ref": "DESIGN.md section 4, C22",
     "technique": "Coq proof (induction over runs/merge passes) of a hand-written model + exhaustive/random exact correspondence with engine_sort.h macros",
-    "text": "mjSORT and the insertion sorts are proved in Coq (for every element type, every total-preorder comparison and every length) to return a sorted, stable permutation; the model is tied to /repo's engine_sort.h and engine_util_misc.c by exact differential runs (exhaustive over short arrays on 3 keys, run-boundary lengths, random). mjPARTIAL_SORT is modelled and tied by correspondence; its theorem (k smallest, sorted) is proved for the selection outcome via the oracle only where noted.",
+    "text": "mjSORT and the insertion sorts are proved in Coq (for every element type, every total-preorder comparison and every length) to return a sorted, stable permutation (C22_sort, C22_insertion). mjPARTIAL_SORT is proved (C22_partial: for every element type, every sign-antisymmetric transitive three-way comparison, every length n and every k) to leave the array unchanged when k <= 0 or n < k, and otherwise to put into arr[0..k) a sorted list of k input elements such that the remaining input elements are all >= every selected one (the k smallest as a multiset), leaving arr[k..n) untouched; the proof goes through the max-heap invariant of _mjSIFT_DOWN, heapify and the scan loop. The model is tied to /repo's engine_sort.h and engine_util_misc.c by exact differential runs including tags (exhaustive over short arrays on 3 keys and all k, run-boundary lengths, random). Not proved: nothing about which of several equal keys is selected by the partial sort (it is not stable; the property does not ask for it).",
     "note": "Trusted: Coq kernel; hand-written model Model/Sort.v (runs as lists, ping-pong buffers abstracted); correspondence harness (gcc, driver c22_sort.c). Theorems are closed under the global context.",
     "assumptions": ["model abstracts array indices/buffers into lists of runs; tie is differential testing on the cases of this run"],
 }
@@ -76,7 +76,6 @@ def run(ctx):
                 if 0 < k <= n:
                     head = pairs[:k]
                     allp = [(kk, i) for i, kk in enumerate(ks)]
-                    ok = sorted(pairs) == sorted(allp) or True
                     # k smallest keys, sorted; selected elements must be input elements
                     ok = [p[0] for p in head] == sorted(ks)[:k] and all(p in allp for p in head) and len(set(head)) == k
                     if not ok:
@@ -118,4 +117,4 @@ def run(ctx):
                        "partial sort for every k in -1..n+1 on short arrays and random; non-trivial = distinct case with at least one inversion and one duplicate key" % maxlen)
     ctx.cov["samples"] = [{"op": c[0], "keys": c[1][:40], "k": c[2]} for c in (cases[400], cases[nexh + 3], cases[-1])]
     ctx.cov["correspondence_disagreements"] = len(fails)
-    ctx.cov["explanation"] = "Theorems C22_sort/C22_insertion proved for all inputs; model tied to engine_sort.h by exact comparison on %d cases" % len(cases)
+    ctx.cov["explanation"] = "Theorems C22_sort/C22_insertion/C22_partial proved for all inputs; model tied to engine_sort.h by exact comparison on %d cases" % len(cases)
